@@ -34,6 +34,9 @@ let parse_ops toks =
     | "WS" :: k :: f :: r -> cur := OWS (ni k, nati f) :: !cur; go r
     | "RA" :: k :: f :: n :: r -> cur := ORA (ni k, nati f, ni n) :: !cur; go r
     | "WA" :: k :: f :: n :: r -> cur := OWA (ni k, nati f, ni n) :: !cur; go r
+    | "RO" :: f :: r -> cur := ORO (nati f) :: !cur; go r
+    | "TO" :: k :: ob :: d :: r -> cur := OTO (ni k, ni ob, z_of_int (int_of_string d)) :: !cur; go r
+    | "CO" :: ob :: r -> cur := OCO (ni ob) :: !cur; go r
     | "I" :: k :: f :: r -> cur := OI (ni k, nati f) :: !cur; go r
     | "O" :: k :: f :: r -> cur := OO (ni k, nati f) :: !cur; go r
     | _ -> failwith "bad op" in
@@ -59,7 +62,8 @@ let loop_case toks =
     let base_name n = (match n with 0 -> "ok" | 1 -> "can" | 2 -> "self" | 3 -> "sys9" | 4 -> "eof" | 5 -> "sys32" | _ -> "?") in
     let num_name n = (let v = int_of_n n in if v < 10 then base_name v else base_name (v mod 10) ^ "/" ^ soi (v / 10 - 1)) in
     let log = List.map (fun ((h, c), t) -> soi (int_of_n h) ^ ":" ^ num_name c ^ "@" ^ soi (int_of_n t)) x.olog in
-    "loop sub=" ^ join subs ^ " log=" ^ join log ^ " flags=" ^ (if not fin then "FUEL" else if int_of_nat x.stage = 3 then "EXC-sys9" else "-") ^ " mode=" ^ pick
+    let cans = List.map (fun (k, t) -> soi (int_of_n k) ^ "@" ^ soi (int_of_n t)) x.tcans in
+    "loop sub=" ^ join subs ^ " log=" ^ join log ^ " cancels=" ^ join cans ^ " flags=" ^ (if not fin then "FUEL" else if int_of_nat x.stage = 3 then "EXC-sys9" else "-") ^ " mode=" ^ pick
   | _ -> "loop BAD-CASE"
 
 let pool_case toks =
